@@ -10,8 +10,8 @@
 
    clause by clause, for the tree AFTER the fix commits 797f298 (min_lovelace does not touch its
    argument), b6c39dd (body validates nested fields), ccdd971 (`change.coin < 0` refusal), d736adf
-   (final size re-check of the packer raises instead of `break`) and f703c57 (un-merged changes of
-   merge mode are checked against the minimum ADA).
+   (final size re-check of the packer raises instead of `break`), f703c57 (un-merged changes of
+   merge mode are checked against the minimum ADA) and c8b4af1 (values are sized with the most ADA they can receive).
 
    Code there, data here:
    * an address is its raw bytes (Address.to_primitive(); 29 or 57 bytes), address equality is equality
@@ -80,18 +80,19 @@ Definition min_lovelace (c : cfg) (o : txout) : Z :=
 
 Definition vsize (v : value) : Z := Z.of_N (lenN (value_cbor v)).
 
-(* the size test shared by the packer's two checks: the value is sized with the minimum ADA of the
-   output that would carry it *)
-Definition too_big (c : cfg) (addr : bytes) (amt : value) : bool :=
+(* the size test shared by the packer's two checks: the value is sized with the most ADA the output can
+   receive: max(minimum ADA of the output that would carry it, max_coin)   (fix c8b4af1; it used to be
+   sized with the minimum ADA only) *)
+Definition too_big (c : cfg) (addr : bytes) (max_coin : Z) (amt : value) : bool :=
   let required := min_lovelace c (plain addr amt) in
-  max_val_size c <? vsize (mkValue required (massets amt)).
+  max_val_size c <? vsize (mkValue (Z.max required max_coin) (massets amt)).
 
-(* _adding_asset_make_output_overflow(output, current_assets, policy_id, name, val, max_val_size) *)
-Definition overflow (c : cfg) (addr : bytes) (out_amt : value) (cur : asset) (pid name : bytes) (q : Z) : bool :=
+(* _adding_asset_make_output_overflow(output, current_assets, policy_id, name, val, max_val_size, max_coin) *)
+Definition overflow (c : cfg) (addr : bytes) (max_coin : Z) (out_amt : value) (cur : asset) (pid name : bytes) (q : Z) : bool :=
   let attempt_assets := a_add cur [(name, q)] in
   let attempt_ma : masset := [(pid, attempt_assets)] in
   let attempt := v_add (mkValue 0 attempt_ma) out_amt in
-  too_big c addr attempt.
+  too_big c addr max_coin attempt.
 
 (* temp_multi_asset += MultiAsset({policy_id: temp_assets}); temp_value.multi_asset = temp_multi_asset;
    output.amount += temp_value          (temp_multi_asset is empty and temp_value.coin is 0 at both places) *)
@@ -102,28 +103,28 @@ Definition flush (out : value) (pid : bytes) (tmp : asset) : value :=
 Definition pstate := (list masset * value * asset)%type.
 
 (* body of `for asset_name, asset_value in assets.items()` *)
-Definition asset_step (c : cfg) (addr pid : bytes) (st : pstate) (nq : bytes * Z) : pstate :=
+Definition asset_step (c : cfg) (addr : bytes) (mc : Z) (pid : bytes) (st : pstate) (nq : bytes * Z) : pstate :=
   let arr := fst (fst st) in let out := snd (fst st) in let tmp := snd st in
-  if overflow c addr out tmp pid (fst nq) (snd nq) then
+  if overflow c addr mc out tmp pid (fst nq) (snd nq) then
     let out1 := if is_nil tmp then out else flush out pid tmp in
     (arr ++ [massets out1], mkValue 0 [], a_add [] [nq])
   else (arr, out, a_add tmp [nq]).
 
 (* body of `for policy_id, assets in change_estimator.multi_asset.items()`; the final size re-check
    raises InvalidTransactionException (fix d736adf; it used to restore old_amount and break) *)
-Definition policy_step (c : cfg) (addr : bytes) (st : res (list masset * value)) (pa : bytes * asset)
+Definition policy_step (c : cfg) (addr : bytes) (mc : Z) (st : res (list masset * value)) (pa : bytes * asset)
   : res (list masset * value) :=
   match st with
   | Err e => Err e
   | Ok (arr, out) =>
-      let st1 := fold_left (asset_step c addr (fst pa)) (snd pa) (arr, out, []) in
+      let st1 := fold_left (asset_step c addr mc (fst pa)) (snd pa) (arr, out, []) in
       let out1 := flush (snd (fst st1)) (fst pa) (snd st1) in
-      if too_big c addr out1 then Err EInvalidTx else Ok (fst (fst st1), out1)
+      if too_big c addr mc out1 then Err EInvalidTx else Ok (fst (fst st1), out1)
   end.
 
-(* _pack_tokens_for_change(change_address, change_estimator, max_val_size) *)
+(* _pack_tokens_for_change(change_address, change_estimator, max_val_size): max_coin = change_estimator.coin *)
 Definition pack_tokens (c : cfg) (addr : bytes) (change : value) : res (list masset) :=
-  match fold_left (policy_step c addr) (massets change) (Ok ([], mkValue (coin change) [])) with
+  match fold_left (policy_step c addr (coin change)) (massets change) (Ok ([], mkValue (coin change) [])) with
   | Err e => Err e
   | Ok (arr, out) => Ok (arr ++ [massets out])
   end.
